@@ -315,6 +315,11 @@ descend:
 		// append into a slice variable declared in the function body: local
 		if u.declaredInBody(v) && !captured {
 			out.class = "local"
+		} else if !captured && u.decl != nil && w.appendsOnlyToCallersFreshSlices(u, v) {
+			// a helper that appends to its slice PARAMETER and hands it back, called only with slices the caller built
+			// itself (`q = pushAll(q, n)` next to `q = append(q, …)`): the storage written is the caller's local
+			out.class = "local"
+			out.note = "append to a slice parameter that every caller passes from a local slice of its own and gets back"
 		} else {
 			out.class = heap
 		}
@@ -377,6 +382,89 @@ func passThrough(w *world, call *ast.CallExpr, depth int) int {
 		}
 	}
 	return -1
+}
+
+// appendsOnlyToCallersFreshSlices: v is a slice parameter of the package-level function u, u is a pass-through for it
+// (isFreshIn with returns), and at EVERY call of u in the package the argument in v's position is a local slice variable
+// of the caller that only ever holds storage created there (isFreshIn) and receives the call's result.
+func (w *world) appendsOnlyToCallersFreshSlices(u *unit, v *types.Var) bool {
+	if u.decl.Recv != nil || u.decl.Body == nil {
+		return false
+	}
+	k, idx := 0, -1
+	for _, field := range u.decl.Type.Params.List {
+		for _, nm := range field.Names {
+			if w.info.Defs[nm] == v {
+				idx = k
+			}
+			k++
+		}
+	}
+	if idx < 0 {
+		return false
+	}
+	if _, isSlice := v.Type().Underlying().(*types.Slice); !isSlice || !isFreshIn(w, u.decl.Body, v, true, 0) {
+		return false
+	}
+	fn, _ := w.info.Defs[u.decl.Name].(*types.Func)
+	if fn == nil {
+		return false
+	}
+	calls, ok := 0, true
+	for _, f := range w.art.Syntax {
+		for _, d := range f.Decls {
+			fd, isFn := d.(*ast.FuncDecl)
+			if !isFn || fd.Body == nil {
+				continue
+			}
+			ast.Inspect(fd.Body, func(x ast.Node) bool {
+				as, isAs := x.(*ast.AssignStmt)
+				if isAs && len(as.Lhs) == 1 && len(as.Rhs) == 1 {
+					if call, isCall := unparen(as.Rhs[0]).(*ast.CallExpr); isCall {
+						if id, isId := unparen(call.Fun).(*ast.Ident); isId && w.info.Uses[id] == fn {
+							calls++
+							arg, isArg := unparen(call.Args[idx]).(*ast.Ident)
+							lhs, isLhs := unparen(as.Lhs[0]).(*ast.Ident)
+							if !isArg || !isLhs || w.info.Uses[arg] == nil || w.info.Uses[arg] != w.info.Uses[lhs] {
+								ok = false
+								return true
+							}
+							av, isVar := w.info.Uses[arg].(*types.Var)
+							if !isVar || !(fd.Body.Pos() <= av.Pos() && av.Pos() < fd.Body.End()) || !isFreshIn(w, fd.Body, av, false, 1) {
+								ok = false
+							}
+							return true
+						}
+					}
+				}
+				// any other mention of the function (a call in another position, a function value) is not understood
+				if call, isCall := x.(*ast.CallExpr); isCall {
+					if id, isId := unparen(call.Fun).(*ast.Ident); isId && w.info.Uses[id] == fn {
+						// counted above when it is the right-hand side of `v = f(…)`; anything else disqualifies
+						calls--
+					}
+				}
+				return true
+			})
+		}
+	}
+	// every call was of the accepted form: each accepted call was counted +1 by the assignment and -1 by the call node
+	return ok && calls == 0 && w.calledAtLeastOnce(fn)
+}
+
+func (w *world) calledAtLeastOnce(fn *types.Func) bool {
+	found := false
+	for _, f := range w.art.Syntax {
+		ast.Inspect(f, func(x ast.Node) bool {
+			if call, ok := x.(*ast.CallExpr); ok {
+				if id, ok := unparen(call.Fun).(*ast.Ident); ok && w.info.Uses[id] == fn {
+					found = true
+				}
+			}
+			return true
+		})
+	}
+	return found
 }
 
 // isFreshIn: inside `body`, every value assigned to v (and, with returns=true, every value returned) is make(…), a
@@ -447,6 +535,15 @@ func isFreshIn(w *world, body *ast.BlockStmt, v *types.Var, returns bool, depth 
 // ---------------------------------------------------------------------------
 // Generator
 // ---------------------------------------------------------------------------
+
+// closeList renders the elements and the closing bracket; a comment on the last element must not swallow the bracket
+func closeList(es []elem, indent string) string {
+	body := strings.TrimRight(joinElems(es, indent), "\n")
+	if len(es) > 0 && es[len(es)-1].c != "" {
+		return body + "\n" + indent + "]"
+	}
+	return body + "]"
+}
 
 func genEffects(w *world) string {
 	f := newLeanFile("Functions, static callees and syntactic write footprints of package art\n" +
@@ -573,7 +670,7 @@ func genEffects(w *world) string {
 				if len(es) == 0 {
 					passWrites = append(passWrites, tuple(leanStr(u.name), "[]"))
 				} else {
-					passWrites = append(passWrites, "("+leanStr(u.name)+", [\n"+strings.TrimRight(joinElems(es, "    "), "\n")+"])")
+					passWrites = append(passWrites, "("+leanStr(u.name)+", [\n"+closeList(es, "    ")+")")
 				}
 			}
 		}
@@ -584,7 +681,7 @@ func genEffects(w *world) string {
 			for _, x := range ws {
 				es = append(es, elem{s: tuple(leanStr(x.class), leanStr(x.text)), c: x.note})
 			}
-			writes = append(writes, "("+leanStr(u.name)+", [\n"+strings.TrimRight(joinElems(es, "    "), "\n")+"])")
+			writes = append(writes, "("+leanStr(u.name)+", [\n"+closeList(es, "    ")+")")
 		}
 	}
 
